@@ -32,6 +32,11 @@ class Recorder:
             rid = request.get("_verif_id", 0) if isinstance(request, dict) else 0
             t = self.tid()
             self.emit({"k": "begin", "r": rid, "t": t, "m": 0})
+            # the device's blockchain state moves on between requests: what it holds now is derived from this
+            # request's id, so a state reply built from anything read during another request is recognisable
+            if rid:
+                for i in list(dev.state_hashes):
+                    dev.state_hashes[i] = hashlib.sha256(b"%d|%d" % (rid, i)).digest()
             try:
                 return orig(request)
             finally:
@@ -96,7 +101,23 @@ def reply_owner(rid, kind, st, reply, device, all_reqs):
         from ..simdev import PATH_BYTES
         return rid if reply.get("pubKey") == device.keys[PATH_BYTES[st["key"]]].hex() else 0
     if kind == "blockchainState":
-        return rid if "state" in reply else 0
+        vals = []
+
+        def walk(v):
+            if isinstance(v, dict):
+                for x in v.values():
+                    walk(x)
+            elif isinstance(v, str) and len(v) == 64:
+                vals.append(v)
+        walk(reply.get("state"))
+        if not vals:
+            return 0
+        for oid, (k2, _st2) in all_reqs.items():
+            if k2 == "blockchainState":
+                own = {hashlib.sha256(b"%d|%d" % (oid, i)).hexdigest() for i in (0x01, 0x02, 0x03, 0x05, 0x81, 0x82, 0x84)}
+                if all(v in own for v in vals):
+                    return oid
+        return 0
     return rid
 
 
